@@ -35,6 +35,8 @@ class Forest:
 
     # ---- edits ---------------------------------------------------------------------------
     def add_child(self, p, c, index=None):
+        if index is not None and (not isinstance(index, int) or isinstance(index, bool)):
+            raise ModelError("a position is an integer")      # ("1" from a web form, 2.0 from a division: the edit fails, nothing changes)
         if index is None:
             self.kids[p].append(c)
         else:
